@@ -1621,6 +1621,9 @@ namespace awkward {
     int64_t line = 1;
     int64_t colstart = 0;
     int64_t colstop = 0;
+    size_t ncounted = 0;           // tokens already looked at for comment tracking
+    int64_t paren_depth = 0;       // inside ( ... ), which may be nested
+    bool in_line_comment = false;  // inside \ ... end of line
     while (stop < source_.size()) {
       char current = source_[stop];
       // Whitespace separates tokens and is not included in them.
@@ -1660,7 +1663,35 @@ namespace awkward {
       stop++;
       colstop++;
 
-      if (!tokenized.empty()  &&  (tokenized[tokenized.size() - 1] == ".\""
+      // Words inside comments are not words: '( prints with ." )' and
+      // '\ see s" below' do not start a string.
+      if (tokenized.size() > ncounted) {
+        for (;  ncounted < tokenized.size();  ncounted++) {
+          const std::string& word = tokenized[ncounted];
+          if (in_line_comment) {
+            if (word == "\n") {
+              in_line_comment = false;
+            }
+          }
+          else if (paren_depth > 0) {
+            if (word == "(") {
+              paren_depth++;
+            }
+            else if (word == ")") {
+              paren_depth--;
+            }
+          }
+          else if (word == "(") {
+            paren_depth++;
+          }
+          else if (word == "\\") {
+            in_line_comment = true;
+          }
+        }
+      }
+
+      if (!tokenized.empty()  &&  paren_depth == 0  &&  !in_line_comment  &&
+          (tokenized[tokenized.size() - 1] == ".\""
         ||  tokenized[tokenized.size() - 1] == "s\"")) {
         // Strings are tokenized differently.
         if (stop == source_.size()) {
@@ -1704,6 +1735,7 @@ namespace awkward {
         colstop++;
         tokenized.push_back(source_.substr(start, stop - start - 1));
         linecol.push_back(std::pair<int64_t, int64_t>(line, colstart));
+        ncounted = tokenized.size();   // (the text of a string is not a word)
         start = stop;
         full = false;
         colstart = colstop;
